@@ -301,10 +301,11 @@ def aurel_helpers(rel, F, w, note):
     return O
 
 
-BAD_INDEXINGS = [("s_covd", "x"), ("s_covd", "ux"), ("s_covd", "udd"),
-                 ("s_div", "x"), ("s_curl", "uu"), ("Lie_beta", "u"),
-                 ("Lie_beta", "s_x"), ("Lie_beta", "st_uu"),
-                 ("Lie_beta", "s_uuu"), ("st_covd", "x"), ("st_covd", "uu")]
+# only index strings that can never become meaningful (letters other than
+# u/d), plus s_curl's documented "only accepts 'dd'": ranks or patterns a
+# future version might legitimately add (rank 3, 'st_uu', ...) are not asserted
+BAD_INDEXINGS = [("s_covd", "x"), ("s_covd", "ux"), ("s_div", "x"),
+                 ("s_curl", "uu"), ("Lie_beta", "s_x"), ("st_covd", "x")]
 
 
 def test_helpers(case, note):
